@@ -817,7 +817,7 @@ Definition spec_apply (s : spec) (o : op) : spec :=
   end.
 
 Definition spec_init : spec :=
-  [(KRound, [0]); (KSchema, [schema_version]); (KTotals false, [0]); (KOrp 0, [0])].
+  [(KOrp 0, [0]); (KTotals false, [0]); (KSchema, [schema_version]); (KRound, [0])].
 
 (* the writers' protocol: what accountsNewRound and friends guarantee, and what SQLite's
    primary keys / rowid references demand; also keeps every number inside SQLite's int64 *)
